@@ -309,7 +309,7 @@ namespace
     struct NListSum
     {
         static constexpr auto name = "c12_list_sum";
-        static void eval(In<"l", PairL2, InputActivity::Active, InputValidity::Unchecked> l, Out<TS<Int>> out)
+        static void eval(In<"l", PairL2> l, Out<TS<Int>> out)
         {
             Int s2 = 0;
             for (std::size_t i = 0; i < 2; ++i) if (l[i].valid()) s2 += (static_cast<Int>(i) + 2) * l[i].value();
@@ -398,7 +398,7 @@ namespace
                 auto a = wire<TsWriter>(w, Int{1});
                 auto b = wire<TsWriter2>(w);
                 Port<TS<Int>> o;
-                if (packed) o = l.key == 1 ? wire<NListSumAtStart>(w, stdlib::to_tsl<PairL2>(w, a, b).template as<PairL2>()) : Port<TS<Int>>{a};
+                if (packed) o = l.key == 1 ? wire<NListSum>(w, stdlib::to_tsl<PairL2>(w, a, b).template as<PairL2>()) : Port<TS<Int>>{a};
                 else o = l.key == 1 ? wire<NPairU>(w, a, b) : wire<NPairP>(w, a, b);
                 wire<EveryProbe<TS<Int>>>(w, o);
                 GraphBuilder gb = std::move(w).finish();
